@@ -236,6 +236,19 @@ func wfLeaves(ref nodeRef, out *[]unsafe.Pointer, depth int) {
 	}
 }
 
+// wfInner counts the inner nodes reachable through registered children.
+func wfInner(ref nodeRef, depth int) uint64 {
+	if ref.pointer == nil || ref.tag == nodeKindLeaf || ref.tag > nodeKindLeaf || depth > 64 {
+		return 0
+	}
+	n := uint64(1)
+	kids, _ := childrenOf(ref)
+	for _, c := range kids {
+		n += wfInner(c.ref, depth+1)
+	}
+	return n
+}
+
 // wellFormed: the index under root is the compressed radix tree of its leaves and holds size leaves.
 func wellFormed(lv *leafView, root nodeRef, size int) bool {
 	if root.pointer == nil {
